@@ -21,6 +21,11 @@ def absF (s : St) : Spec.Cond.St :=
 /-- every scheduled timer belongs to a pending future (true after every drain) -/
 def TInv (s : St) : Prop := ∀ t ∈ s.timers, isPend s.futs t.2 = true
 
+/-- scheduled timer ids are in range (also true between the calls of one loop iteration, where `TInv` is not) -/
+def TR (s : St) : Prop := ∀ t ∈ s.timers, t.2 < s.futs.length
+
+theorem TR_of_TInv {s : St} (ht : TInv s) : TR s := fun t h => isPend_lt (ht t h)
+
 theorem absF_timers {s : St} (ht : TInv s) : (absF s).timers = s.timers := by
   simp only [absF]
   exact List.filter_eq_self.mpr (fun t h => ht t h)
@@ -134,7 +139,7 @@ theorem TInv_settleRace (s : St) : TInv (settleRace s).1 := by
 
 /-! ### the calls -/
 
-theorem wait_sim {s : St} (h : Inv s) (ht : TInv s) (d : Option Nat) :
+theorem wait_sim {s : St} (h : Inv s) (ht : TR s) (d : Option Nat) :
     Spec.Cond.wait (absF s) d = absF (wait s d) := by
   have hq : s.waiters.filter (isPend (s.futs ++ [FState.pending])) = s.waiters.filter (isPend s.futs) := by
     apply List.filter_congr
@@ -144,7 +149,7 @@ theorem wait_sim {s : St} (h : Inv s) (ht : TInv s) (d : Option Nat) :
       = s.timers.filter (fun t => isPend s.futs t.2) := by
     apply List.filter_congr
     intro t ht'
-    exact isPend_append_lt (isPend_lt (ht t ht'))
+    exact isPend_append_lt (ht t ht')
   unfold Spec.Cond.wait wait
   cases d with
   | none =>
@@ -256,7 +261,7 @@ theorem step_sim {s : St} (h : Inv s) (ht : TInv s) (op : Op) :
       specVis (Spec.Cond.step (absF s) op).2 = outVis (step s op).2 := by
   cases op with
   | wait d =>
-    simp only [step, Spec.Cond.step, wait_sim h ht, settle_sim (inv_wait h d)]
+    simp only [step, Spec.Cond.step, wait_sim h (TR_of_TInv ht), settle_sim (inv_wait h d)]
     exact ⟨by first | trivial | rfl, by first | trivial | rfl⟩
   | notify n =>
     simp only [step, Spec.Cond.step, notify_sim h, settle_sim (inv_notify h n)]
